@@ -47,21 +47,17 @@ def to_date(oadate):
         value -= month_days(year, month)
         month += 1
     day = math.trunc(value) + 1
-    value = value - math.trunc(value)
-    hours = math.trunc(value * 24)
-    value = value * 24 - hours
-    minutes = math.trunc(value * 60)
-    value = value * 60 - minutes
-    seconds = math.trunc(value * 60)
-    value = value * 60 - seconds
-    microseconds = math.trunc(value * 1000 * 1000)
+    # the day fraction is a binary float, so the time of day is rounded to
+    # the millisecond instead of truncated (04:36:54 must not come back as
+    # 04:36:53.999999)
+    millis = min(round((value - math.trunc(value)) * 86400000), 86399999)
     result = datetime.datetime.fromtimestamp(0)
     return result.replace(
         year=year,
         month=month+1,
         day=day,
-        hour=hours,
-        minute=minutes,
-        second=seconds,
-        microsecond=microseconds
+        hour=millis // 3600000,
+        minute=millis // 60000 % 60,
+        second=millis // 1000 % 60,
+        microsecond=millis % 1000 * 1000
     )
